@@ -288,7 +288,34 @@ def job_active(n_cuts, rows, d=1):
     return res
 
 
+def job_dtype():
+    """CONCRETE witness: a fitted Douglas model gives integer-stored data the probabilities it gives the same values stored as floats
+    (the soft-binning offsets must not inherit the dtype of the data)"""
+    res = _new()
+    rep_ = {"kind": "dtype"}
+    bad = replay(rep_)
+    res["paths"] = 1
+    res["obligations"].append({"name": "dtype: predict_proba(integer array) == predict_proba(the same values as floats), for n_cuts 1..3 and a mask", "verdict": "sat" if bad else "unsat", "how": "concrete float64 run"})
+    if bad:
+        res["violations"].append({"signature": f"{PROP}:dtype", "what": "Douglas: predictions on integer-stored data differ from those on the same values stored as floats", "replay": rep_})
+    return res
+
+
 def replay(rep, verbose=False):
+    if rep.get("kind") == "dtype":
+        dgm = loader.real("tree.douglas")
+        rs = np.random.RandomState(2)
+        Xf = rs.randint(-6, 7, size=(40, 3)).astype(float)
+        for n_cuts, mask in [(1, None), (2, None), (3, np.array([True, False, True]))]:
+            m = dgm.Douglas(n_clusters=3, n_cuts=n_cuts, feature_mask=mask, gemini="mi", max_iter=5, random_state=1).fit(Xf + rs.normal(size=Xf.shape) * 0.3)
+            for dt in (np.int64, np.int32, np.float32):
+                Pi, Pf = m.predict_proba(Xf.astype(dt)), m.predict_proba(Xf)
+                tol = 1e-9 if dt != np.float32 else 1e-3
+                if not np.allclose(Pi, Pf, rtol=0, atol=tol):
+                    if verbose:
+                        print("n_cuts", n_cuts, "dtype", dt.__name__, "max |difference|", float(np.abs(Pi - Pf).max()))
+                    return True
+        return False
     mod = loader.real("tree.douglas")
     model = {k: float(Fraction(v)) for k, v in rep.get("model", {}).items()}
     kind = rep["kind"]
@@ -351,6 +378,7 @@ def jobs(tier):
         if (d, c) in ((3, 1), (2, 2)):
             for dt in ("int", "list"):
                 out.append({"name": f"mask/d{d}c{c}/{dt}", "target": "checks.c15:job_mask", "kwargs": dict(d=d, n_cuts=c, mask_dtype=dt), "timeout": 280 if q else 1800})
+    out.append({"name": "dtype", "target": "checks.c15:job_dtype", "kwargs": {}, "timeout": 200})
     for d, c in ([(1, 1), (1, 2), (2, 1)] if q else [(1, 1), (1, 2), (2, 1), (2, 2), (1, 3)]):
         out.append({"name": f"bins/d{d}c{c}", "target": "checks.c15:job_bins", "kwargs": dict(d=d, n_cuts=c), "timeout": 280 if q else 1800})
     for c in ([1, 2, 3] if q else [1, 2, 3, 4]):
